@@ -64,6 +64,73 @@ Definition tmp_freeb (init : fsmap) (prog : list action) : bool :=
   forallb (fun f => match lookup (tmp_name f) init with None => true | Some _ => false end)
           (saved_paths prog).
 
+(* ---------- foreign entries ---------- *)
+
+(* the paths whose mode a run may change *)
+Fixpoint chmod_paths (prog : list action) : list path :=
+  match prog with
+  | [] => []
+  | ASave _ _ :: rest => chmod_paths rest
+  | AChmod f _ :: rest => f :: chmod_paths rest
+  | AIfSaved _ _ _ :: rest => chmod_paths rest
+  end.
+
+(* a path is foreign to a run when the run neither saves it nor fixes its mode.  A foreign
+   path may well be NAMED f.pkglint.tmp for a saved file f: such an entry of the initial
+   tree (of any kind) does not belong to the run either *)
+Definition foreign (prog : list action) (p : path) : Prop :=
+  ~ In p (saved_paths prog) /\ ~ In p (chmod_paths prog).
+
+(* the names of the temporary files the run may create *)
+Definition run_tmps (prog : list action) : list path := map tmp_name (saved_paths prog).
+
+(* after a COMPLETE run (ended normally, or went on after a failing system call) every
+   foreign path has exactly the entry it had: same kind, same bytes, same mode, or is
+   absent as before -- so no temporary file created by the run is left, and a
+   pre-existing f.pkglint.tmp is still there, unmodified *)
+Definition foreign_untouched (prog : list action) (init cur : fsmap) : Prop :=
+  forall p, foreign prog p -> lookup p cur = lookup p init.
+
+(* at a crash point the same holds for every foreign path except a temporary name that
+   was free when the run started (the file under construction) *)
+Definition foreign_untouched_crash (prog : list action) (init cur : fsmap) : Prop :=
+  forall p, foreign prog p ->
+    (lookup p init <> None \/ ~ In p (run_tmps prog)) -> lookup p cur = lookup p init.
+
+(* boolean form, applied to snapshots of real runs *)
+Definition kind_eqb (a b : kind) : bool :=
+  match a, b with KReg, KReg | KDir, KDir | KSymlink, KSymlink => true | _, _ => false end.
+
+Definition entry_eqb (a b : option file) : bool :=
+  match a, b with
+  | None, None => true
+  | Some x, Some y => kind_eqb (f_kind x) (f_kind y) && str_eqb (f_data x) (f_data y) && (f_mode x =? f_mode y)
+  | _, _ => false
+  end.
+
+Definition is_foreignb (prog : list action) (p : path) : bool :=
+  negb (existsb (str_eqb p) (saved_paths prog)) && negb (existsb (str_eqb p) (chmod_paths prog)).
+
+(* complete = false: a crash snapshot *)
+Fixpoint foreign_bad_in (entries : fsmap) (complete : bool) (init : fsmap) (prog : list action) (cur : fsmap)
+  : option path :=
+  match entries with
+  | [] => None
+  | (p, _) :: rest =>
+    let ok := negb (is_foreignb prog p)
+              || entry_eqb (lookup p cur) (lookup p init)
+              || (negb complete && existsb (str_eqb p) (run_tmps prog)
+                  && match lookup p init with None => true | Some _ => false end) in
+    if ok then foreign_bad_in rest complete init prog cur else Some p
+  end.
+
+(* looks at every path that occurs in the old or in the new tree *)
+Definition foreign_bad (complete : bool) (init : fsmap) (prog : list action) (cur : fsmap) : option path :=
+  match foreign_bad_in init complete init prog cur with
+  | Some p => Some p
+  | None => foreign_bad_in cur complete init prog cur
+  end.
+
 (* ---------- crash points of an operation list ---------- *)
 
 (* the operation lists a killed process may have completed: every prefix, and
